@@ -7,6 +7,7 @@ CONSTANTS
   Nest = FALSE
   MaxDel = 1
   Merge = FALSE
+  Script <- NoScript
   Dups = FALSE
   MaxSticky = 1
 SPECIFICATION SpecS
